@@ -103,11 +103,24 @@ func runOp(op J, handles *[]*ucfg.Config) (res interface{}) {
 		}
 		return J{"harness": "bad set value"}
 	case "setchild":
+		if b, _ := op["nilChild"].(bool); b {
+			return e(c.SetChild(name, idx, nil, opts...))
+		}
+		if op["childHandle"] != nil {
+			// an existing config (possibly the receiver itself or one of its ancestors) as the child
+			k := numInt(op["childHandle"], 0)
+			if k < 0 || k >= len(*handles) {
+				return J{"harness": "bad child handle"}
+			}
+			return e(c.SetChild(name, idx, (*handles)[k], opts...))
+		}
 		child, err := ucfg.NewFrom(buildValue(op["val"]), buildOpts(op["copts"])...)
 		if err != nil {
 			return J{"harness": "setchild source: " + err.Error()}
 		}
 		return e(c.SetChild(name, idx, child, opts...))
+	case "path":
+		return okRes(J{"s": c.Path(".")})
 	case "remove":
 		ok, err := c.Remove(name, idx, opts...)
 		if err != nil {
